@@ -367,7 +367,7 @@ fn main() {
     let mut rng = Rng::new(args.seed);
     let mut sum = Summary::default();
     sum.rule = "validate_membership on boundary-directed and grid-sampled inputs (sizes 0..10 over trust {none,0.1,0.29,0.3,0.9,...} x region {none,A..D} x 7 latency classes, both modes, both enforcement modes, candidate trust none/low/at-threshold/high, default / log_only / from_maintenance_config / custom configs) plus sets of 11..64 answers; each compared with Model/CloseGroup.v inside Coq (verdict, failure list, regions, ratios, enforcement wrappers) and with the accept specification of the theorems; every confirming answer is also flipped on the real code. Non-trivial = both gates passed (the mode-specific branch ran); distinct = different (config, mode, response vector, candidate trust)".into();
-    let per_shard = if thorough { 1000 } else { 800 };
+    let per_shard = if thorough { 1000 } else { 920 };
     let mut cw = CaseWriter::new(&args.out, "cases_c15", HEADER, "case_t", "check_case", "prop_case", per_shard);
     let target: u64 = if thorough { 96_000 } else { 6_400 };
     let mut seen = std::collections::HashSet::new();
